@@ -27,6 +27,20 @@ def plan(tier, seed):
 SCALARS = [0, 1, -1, 2, 3, -2, 0.5, -0.25, 1.5, 1e-3, 7.0, True, False, 0.0, -0.0, 1e6, 1 / 3]
 
 
+def _absmag(o):
+    """sum of the absolute values of the terms of a Point / Expression / scalar (cancellation-aware size: rounding of a
+    sum scales with its terms, not with its value)"""
+    from pv import canon
+    from pv.algebra import DIM
+    from PEPit import Point, Expression
+    if isinstance(o, Point):
+        return sum(abs(c) for c in canon.point_coeffs(o).values())
+    if isinstance(o, Expression):
+        G, F, c = canon.expr_coeffs(o)
+        return sum(abs(v) for v in G.values()) * DIM + sum(abs(v) for v in F.values()) + abs(c)
+    return abs(float(o))
+
+
 def tree_workload(rng, n_ops, mon):
     from PEPit import PEP, Point, Expression
     done = 0
@@ -81,20 +95,21 @@ def tree_workload(rng, n_ops, mon):
                             snap, want = mon.snap(old), mon.den(old) + mon.den(b)
                             new = old
                             new += b
-                            mag = 1.0 + abs(mon.den(old)) + abs(mon.den(b))      # cancellation: rounding scales with the operands
+                            mag = 1.0 + _absmag(old) + _absmag(b)      # cancellation: rounding scales with the operands' TERMS
                         else:
                             old = rng.choice(pts)
                             b = rng.choice(pts)
                             snap, want = mon.snap(old), mon.den(old) - mon.den(b)
                             new = old
                             new -= b
-                            mag = 1.0 + float(abs(mon.den(old)).max()) + float(abs(mon.den(b)).max())
+                            mag = 1.0 + _absmag(old) + _absmag(b)
                         mon.count += 1
                         mon.by_op["augmented_assignment"] = mon.by_op.get("augmented_assignment", 0) + 1
                         if not mon.same_snap(snap, mon.snap(old)) or new is old:
                             mon._viol("operand_mutated:augmented_assignment", "an augmented assignment (+=, -=) altered the object bound before", "iadd", old, b)
                         elif not mon._close(mon.den(new), want, mag):
-                            mon._viol("wrong_denotation:augmented_assignment", "augmented assignment denotes something else", "iadd", old, b)
+                            mon._viol("wrong_denotation:augmented_assignment", "augmented assignment denotes %r, operands give %r (operand magnitudes %r, %r)"
+                                      % (mon.den(new), want, mon.den(old), mon.den(b)), "iadd", old, b)
                         (exs if hasattr(new, "counter") and type(new).__name__ == "Expression" else pts).append(new)
                     elif exs:
                         a = rng.choice(exs)
